@@ -70,6 +70,26 @@ func (x *Exec) call(fr *Frame, st *State, in ssa.CallInstruction, pos token.Pos)
 			return x.dispatch(fr, st, fv.Term, cands, args, resT, pos)
 		}
 	}
+	if fv.K == KFunc && fv.Term != nil && x.rootFrame != nil && x.rootFrame.contract != nil && x.rootFrame.contract.PureCallbacks {
+		x.trusted["callbacks supplied by the caller (function values of unknown identity) are pure, deterministic functions of their arguments"] = true
+		ts := []*Term{fv.Term}
+		for _, a := range args {
+			ts = append(ts, leafTerms(a)...)
+		}
+		if resT == nil {
+			return nil
+		}
+		i := 0
+		sigName := sanitize(shortType(c.Value.Type()))
+		v := buildValue(resT, func(l Leaf) *Term {
+			r := x.ctx.App(fmt.Sprintf("cb$%s$%d", sigName, i), l.Sort, ts...)
+			i++
+			return r
+		})
+		x.facts = append(x.facts, x.typeInv(v))
+		x.boundRefs(v, x.allocNow())
+		return v
+	}
 	x.unmod["call through function value "+exprText(c.Value)] = true
 	x.havocAll(st)
 	return x.freshResult(st, resT, "dyncall")
